@@ -21,7 +21,12 @@ RULE = ('(a) exhaustive: all 63 non-empty subsets of the six sources (call '
         'let / if / unless / try-except with probes <dtml-var n missing=..> '
         'before, inside and after every block and sub-template calls, the '
         'namespace randomly spread over the six sources with shadowed '
-        'duplicates.  Non-trivial: >= 2 sources define the name, or a probe '
+        'duplicates; (c) exhaustive: every ordered pair (thorough: triple) '
+        'of 14 binding blocks (in / in mapping prefix / in else / in '
+        'no_push_item / with / with mapping / let / if name / if-elif names '
+        '/ if-else / unless / try handler / try else / try finally) with '
+        'probes of every bindable name before, inside and after each '
+        'level and a sub-template call, 3 syntaxes.  Non-trivial: >= 2 sources define the name, or a probe '
         'sits after a block that bound it.  Enumerated cases are distinct by '
         'construction.')
 ASSUMPTIONS = ['reference interpreter vf/model.py is trusted for (b)']
@@ -315,8 +320,8 @@ def with_missing(ast):
     return ast
 
 
-def run_random(case):
-    ast = with_missing(case['ast'])
+def run_random(case, probes_added=False):
+    ast = case['ast'] if probes_added else with_missing(case['ast'])
     sources = spread(gen.base_ns(), case['picks'])
     src, toks = dtml.print_ast(ast, case['syntax'], dtml.Style(case['style']))
     try:
@@ -337,6 +342,87 @@ def run_random(case):
     return None
 
 
+# ---- (c) enumerated block nestings --------------------------------------
+
+def _v(n, **opts):
+    return dict(k='var', ref=dict(r='name', n=n),
+                opts=[[k, v] for k, v in opts.items()])
+
+
+def _t(s):
+    return dict(k='text', s=s)
+
+
+PROBE_NAMES = ['va', 'vb', 'xo', 'fo', 'xi', 'xk', 'xm', 'la', 'lb', 'td',
+               'error_type', 'sequence-item', 'sequence-index', 'pq_item',
+               'ct', 'cf', 'ft', 'ff', 'fa']
+
+
+def probes(tag):
+    return [_t('{%s:' % tag)] + [n for name in PROBE_NAMES for n in (
+        _v(name, missing='∅'), _t(','))] + [_t('}')]
+
+
+def _name(n):
+    return dict(r='name', n=n)
+
+
+BLOCKS = {
+    'in': lambda b: dict(k='in', ref=_name('s2'), opts=[], body=b,
+                         **{'else': None}),
+    'in-mapping-prefix': lambda b: dict(
+        k='in', ref=_name('sm'), opts=[['mapping', None], ['prefix', 'pq']],
+        body=b, **{'else': None}),
+    'in-empty-else': lambda b: dict(k='in', ref=_name('s0'), opts=[],
+                                    body=[_t('never')], **{'else': b}),
+    'in-no-push': lambda b: dict(k='in', ref=_name('s2'),
+                                 opts=[['no_push_item', None]], body=b,
+                                 **{'else': None}),
+    'with': lambda b: dict(k='with', ref=_name('oa'), mapping=False,
+                           only=False, body=b),
+    'with-mapping': lambda b: dict(k='with', ref=_name('ma'), mapping=True,
+                                   only=False, body=b),
+    'let': lambda b: dict(k='let', binds=[['la', _name('vb')],
+                                          ['lb', _name('la')],
+                                          ['va', _name('fa')]], body=b),
+    'if-name': lambda b: dict(k='if', conds=[_name('ft')], bodies=[b],
+                              **{'else': None}),
+    'if-elif-names': lambda b: dict(
+        k='if', conds=[_name('ff'), _name('cf'), _name('ft')],
+        bodies=[[_t('n1')], [_t('n2')], b], **{'else': [_t('n3')]}),
+    'if-else': lambda b: dict(k='if', conds=[_name('ff'), _name('cu')],
+                              bodies=[[_t('n1')], [_t('n2')]],
+                              **{'else': b}),
+    'unless': lambda b: dict(k='unless', ref=_name('ff'), body=b),
+    'try-handler': lambda b: dict(
+        k='try', body=[_v('fr')], handlers=[dict(names=['VfA'], body=b)],
+        **{'else': None, 'finally': None}),
+    'try-else': lambda b: dict(
+        k='try', body=[_v('fa')], handlers=[dict(names=[], body=[_t('h')])],
+        **{'else': b, 'finally': None}),
+    'try-finally': lambda b: dict(k='try', body=b, handlers=[],
+                                  **{'else': None, 'finally': [_v('ft')]}),
+}
+
+
+def nesting_ast(names):
+    """names: block kinds, outermost first."""
+    inner = probes('in%d' % len(names))
+    for depth in range(len(names), 0, -1):
+        blk = BLOCKS[names[depth - 1]](inner)
+        inner = probes('b%d' % depth) + [blk] + probes('a%d' % depth) + \
+            [_v('ta')]
+    return inner
+
+
+def run_nesting(case):
+    names, syntax, pick = case[1], case[2], case[3]
+    ast = nesting_ast(names)
+    return run_random(dict(ast=ast, style=[pick], picks=[pick, pick + 7, 3,
+                                                         pick * 5 + 1, 11],
+                           syntax=syntax), probes_added=True)
+
+
 def subsets():
     for r in range(1, 7):
         for c in itertools.combinations(SOURCES, r):
@@ -348,6 +434,10 @@ def plan(tier, seed):
     for form in FORMS:
         shards.append(dict(kind='enum', form=form))
     shards.append(dict(kind='underscore'))
+    kinds = sorted(BLOCKS)
+    for i, a in enumerate(kinds):
+        shards.append(dict(kind='nesting', outer=a,
+                           triples=tier == 'thorough'))
     n = 300 if tier == 'quick' else 5000
     for i in range(8):
         shards.append(dict(kind='random', seed=seed * 1000 + i, n=n))
@@ -369,6 +459,20 @@ def run_shard(shard):
                              distinct_by_construction=True)
                     if bad:
                         acc.fail(bad[0], case, bad[1])
+    elif shard['kind'] == 'nesting':
+        kinds = sorted(BLOCKS)
+        combos = [[shard['outer']]] + [[shard['outer'], b] for b in kinds]
+        if shard['triples']:
+            combos += [[shard['outer'], b, c] for b in kinds for c in kinds]
+        for k, names in enumerate(combos):
+            for sx in ('dtml', 'ssi', 'epfs'):
+                case = ['nesting', names, sx, k % 5]
+                bad = run_nesting(case)
+                acc.case(case, True, klass='nesting-depth-%d' % len(names),
+                         distinct_by_construction=True)
+                if bad and bad != 'unspecified':
+                    acc.fail(bad[0].replace('scoping', 'nesting'), case,
+                             bad[1])
     elif shard['kind'] == 'underscore':
         for where in ['client', 'client-tuple', 'kw', 'vars', 'mapping',
                       'ctor_kw', 'ctor_map']:
@@ -404,6 +508,8 @@ def replay(case):
         b = run_random(case)
     elif case[0] == 'underscore':
         b = run_underscore(case[1:])
+    elif case[0] == 'nesting':
+        b = run_nesting(case)
     else:
         b = run_enum(case)
     return b if b and b not in ('unspecified', 'skip') else None
